@@ -33,6 +33,9 @@ def overlay_for(entry):
         path = os.path.join(REPO, e['file'])
         src = files.get(path)
         if src is None:
+            if e.get('create') or (e['old'] == '' and not os.path.exists(path)):
+                files[path] = e['new']  # a file the change adds to the package
+                continue
             src = open(path).read()
         if src.count(e['old']) != 1:
             return None, f"stale: {e['file']}: old text occurs {src.count(e['old'])} times"
